@@ -33,8 +33,16 @@ Definition E_NOCONN : N := 1.
 Definition E_VALPENDING : N := 2.
 Definition E_DIALFAIL : N := 3.
 
-Inductive uev := UValidate (p : peer) | UOpened (p : peer) (d : dir) | UClosed (p : peer) | UFail (p : peer) (e : N).
-Inductive call := CDial (p : peer) | COpen (p : peer) (s : sid) | CForce (p : peer).
+Inductive uev := UValidate (p : peer) | UOpened (p : peer) (d : dir) | UClosed (p : peer) | UFail (p : peer) (e : N)
+               | UNotif (p : peer).   (* NotificationReceived *)
+Inductive call := CDial (p : peer) | COpen (p : peer) (s : sid) | CForce (p : peer)
+                | CRet (p : peer) (code : N)          (* what a send call returned to the user *)
+                | CWire (p : peer) (k : N) (m : N).   (* frame m written on the outbound substream of task k *)
+
+(* return codes of send_sync_notification / send_async_notification *)
+Definition R_OK : N := 0.
+Definition R_NOCONN : N := 1.      (* NotificationError::NoConnection *)
+Definition R_NOPEER : N := 3.      (* Error::PeerDoesntExist *)
 
 (* A Connection task at an event boundary: running, or inside close_connection waiting for a
    substream close that does not complete (t_gated); t_closing = Some notify once it has decided
@@ -56,7 +64,11 @@ Record st := mkSt {
   spend : list (sid * peer);           (* open_substream requests the service has not answered *)
   tasks : list task;
   ntask : N;
-  lastt : peer -> option N             (* most recent Connection task of the peer *)
+  lastt : peer -> option N;            (* most recent Connection task of the peer *)
+  timers : list peer;                  (* armed 5 s negotiation timers, oldest first *)
+  narm : N;                            (* timers armed so far *)
+  hsink : peer -> option N;            (* NotificationHandle.peers: the sink (task) stored for the peer *)
+  usink : peer -> option N             (* a NotificationSink clone the user keeps for the peer *)
 }.
 
 Definition upd {A} (f : peer -> A) (p : peer) (v : A) : peer -> A :=
@@ -64,34 +76,46 @@ Definition upd {A} (f : peer -> A) (p : peer) (v : A) : peer -> A :=
 
 Definition init : st :=
   mkSt (fun _ => None) [] (fun _ => false) (fun _ => false) (fun _ => false) (fun _ => false)
-       (fun _ => false) (fun _ => false) 0 [] [] 0 (fun _ => None).
+       (fun _ => false) (fun _ => false) 0 [] [] 0 (fun _ => None) [] 0 (fun _ => None) (fun _ => None).
 
 (* ---- field setters ---- *)
 Definition set_ps (s : st) (p : peer) (v : option pstate) : st :=
-  mkSt (upd (ps s) p v) (pend s) (hsI s) (hsO s) (hopen s) (hval s) (conn s) (dead s) (nsid s) (spend s) (tasks s) (ntask s) (lastt s).
+  mkSt (upd (ps s) p v) (pend s) (hsI s) (hsO s) (hopen s) (hval s) (conn s) (dead s) (nsid s) (spend s) (tasks s) (ntask s) (lastt s) (timers s) (narm s) (hsink s) (usink s).
 Definition set_pend (s : st) (l : list (sid * peer)) : st :=
-  mkSt (ps s) l (hsI s) (hsO s) (hopen s) (hval s) (conn s) (dead s) (nsid s) (spend s) (tasks s) (ntask s) (lastt s).
+  mkSt (ps s) l (hsI s) (hsO s) (hopen s) (hval s) (conn s) (dead s) (nsid s) (spend s) (tasks s) (ntask s) (lastt s) (timers s) (narm s) (hsink s) (usink s).
 Definition set_hsI (s : st) (p : peer) (b : bool) : st :=
-  mkSt (ps s) (pend s) (upd (hsI s) p b) (hsO s) (hopen s) (hval s) (conn s) (dead s) (nsid s) (spend s) (tasks s) (ntask s) (lastt s).
+  mkSt (ps s) (pend s) (upd (hsI s) p b) (hsO s) (hopen s) (hval s) (conn s) (dead s) (nsid s) (spend s) (tasks s) (ntask s) (lastt s) (timers s) (narm s) (hsink s) (usink s).
 Definition set_hsO (s : st) (p : peer) (b : bool) : st :=
-  mkSt (ps s) (pend s) (hsI s) (upd (hsO s) p b) (hopen s) (hval s) (conn s) (dead s) (nsid s) (spend s) (tasks s) (ntask s) (lastt s).
+  mkSt (ps s) (pend s) (hsI s) (upd (hsO s) p b) (hopen s) (hval s) (conn s) (dead s) (nsid s) (spend s) (tasks s) (ntask s) (lastt s) (timers s) (narm s) (hsink s) (usink s).
 Definition set_hopen (s : st) (p : peer) (b : bool) : st :=
-  mkSt (ps s) (pend s) (hsI s) (hsO s) (upd (hopen s) p b) (hval s) (conn s) (dead s) (nsid s) (spend s) (tasks s) (ntask s) (lastt s).
+  mkSt (ps s) (pend s) (hsI s) (hsO s) (upd (hopen s) p b) (hval s) (conn s) (dead s) (nsid s) (spend s) (tasks s) (ntask s) (lastt s) (timers s) (narm s) (hsink s) (usink s).
 Definition set_hval (s : st) (p : peer) (b : bool) : st :=
-  mkSt (ps s) (pend s) (hsI s) (hsO s) (hopen s) (upd (hval s) p b) (conn s) (dead s) (nsid s) (spend s) (tasks s) (ntask s) (lastt s).
+  mkSt (ps s) (pend s) (hsI s) (hsO s) (hopen s) (upd (hval s) p b) (conn s) (dead s) (nsid s) (spend s) (tasks s) (ntask s) (lastt s) (timers s) (narm s) (hsink s) (usink s).
 Definition set_conn (s : st) (p : peer) (b : bool) : st :=
-  mkSt (ps s) (pend s) (hsI s) (hsO s) (hopen s) (hval s) (upd (conn s) p b) (dead s) (nsid s) (spend s) (tasks s) (ntask s) (lastt s).
+  mkSt (ps s) (pend s) (hsI s) (hsO s) (hopen s) (hval s) (upd (conn s) p b) (dead s) (nsid s) (spend s) (tasks s) (ntask s) (lastt s) (timers s) (narm s) (hsink s) (usink s).
 Definition set_dead (s : st) (p : peer) (b : bool) : st :=
-  mkSt (ps s) (pend s) (hsI s) (hsO s) (hopen s) (hval s) (conn s) (upd (dead s) p b) (nsid s) (spend s) (tasks s) (ntask s) (lastt s).
+  mkSt (ps s) (pend s) (hsI s) (hsO s) (hopen s) (hval s) (conn s) (upd (dead s) p b) (nsid s) (spend s) (tasks s) (ntask s) (lastt s) (timers s) (narm s) (hsink s) (usink s).
 Definition set_nsid (s : st) (n : N) : st :=
-  mkSt (ps s) (pend s) (hsI s) (hsO s) (hopen s) (hval s) (conn s) (dead s) n (spend s) (tasks s) (ntask s) (lastt s).
+  mkSt (ps s) (pend s) (hsI s) (hsO s) (hopen s) (hval s) (conn s) (dead s) n (spend s) (tasks s) (ntask s) (lastt s) (timers s) (narm s) (hsink s) (usink s).
 Definition set_spend (s : st) (l : list (sid * peer)) : st :=
-  mkSt (ps s) (pend s) (hsI s) (hsO s) (hopen s) (hval s) (conn s) (dead s) (nsid s) l (tasks s) (ntask s) (lastt s).
+  mkSt (ps s) (pend s) (hsI s) (hsO s) (hopen s) (hval s) (conn s) (dead s) (nsid s) l (tasks s) (ntask s) (lastt s) (timers s) (narm s) (hsink s) (usink s).
 Definition set_tasks (s : st) (l : list task) : st :=
-  mkSt (ps s) (pend s) (hsI s) (hsO s) (hopen s) (hval s) (conn s) (dead s) (nsid s) (spend s) l (ntask s) (lastt s).
+  mkSt (ps s) (pend s) (hsI s) (hsO s) (hopen s) (hval s) (conn s) (dead s) (nsid s) (spend s) l (ntask s) (lastt s) (timers s) (narm s) (hsink s) (usink s).
+Definition set_hsink (s : st) (p : peer) (v : option N) : st :=
+  mkSt (ps s) (pend s) (hsI s) (hsO s) (hopen s) (hval s) (conn s) (dead s) (nsid s) (spend s) (tasks s) (ntask s) (lastt s)
+       (timers s) (narm s) (upd (hsink s) p v) (usink s).
+Definition set_usink (s : st) (p : peer) (v : option N) : st :=
+  mkSt (ps s) (pend s) (hsI s) (hsO s) (hopen s) (hval s) (conn s) (dead s) (nsid s) (spend s) (tasks s) (ntask s) (lastt s)
+       (timers s) (narm s) (hsink s) (upd (usink s) p v).
+Definition set_timers (s : st) (l : list peer) : st :=
+  mkSt (ps s) (pend s) (hsI s) (hsO s) (hopen s) (hval s) (conn s) (dead s) (nsid s) (spend s) (tasks s) (ntask s) (lastt s) l (narm s) (hsink s) (usink s).
+(* on_handshake_event pushes a 5 s timer for the peer whenever it returns without the stream open *)
+Definition arm (s : st) (p : peer) : st :=
+  mkSt (ps s) (pend s) (hsI s) (hsO s) (hopen s) (hval s) (conn s) (dead s) (nsid s) (spend s) (tasks s) (ntask s) (lastt s)
+       (timers s ++ [p]) (narm s + 1) (hsink s) (usink s).
 Definition spawn_task (s : st) (p : peer) : st :=
   mkSt (ps s) (pend s) (hsI s) (hsO s) (hopen s) (hval s) (conn s) (dead s) (nsid s) (spend s)
-       (tasks s ++ [mkTask (ntask s) p None false]) (ntask s + 1) (upd (lastt s) p (Some (ntask s))).
+       (tasks s ++ [mkTask (ntask s) p None false]) (ntask s + 1) (upd (lastt s) p (Some (ntask s))) (timers s) (narm s) (hsink s) (usink s).
 
 (* ---- pending_outbound (HashMap<SubstreamId, PeerId>) ---- *)
 Definition pend_remove (x : sid) (l : list (sid * peer)) : list (sid * peer) :=
@@ -319,7 +343,7 @@ Definition hs_finish (s : st) (p : peer) : res :=
   | Some (Validating d OOpen IOpen) =>
       let k := ntask s in
       ok_ev (set_ps (spawn_task s p) p (Some (Open k))) (UOpened p d)
-  | _ => ok s
+  | _ => ok (arm s p)
   end.
 
 Definition on_hs_out_ok (s : st) (p : peer) : res :=
@@ -342,7 +366,7 @@ Definition on_hs_in_ok (c : cfg) (s : st) (p : peer) : res :=
       | Validating d o IReading =>
           if negb (o_closed o) && auto_accept c
           then ok (set_ps (set_hsI s p true) p (Some (Validating d o ISending)))
-          else ok_ev (set_ps s p (Some (Validating d o IValidating))) (UValidate p)
+          else ok_ev (arm (set_ps s p (Some (Validating d o IValidating))) p) (UValidate p)
       | Validating d o ISending => hs_finish (set_ps s p (Some (Validating d o IOpen))) p
       | _ => None
       end
@@ -356,11 +380,19 @@ Definition on_hs_err (s : st) (p : peer) : res :=
       match stt with
       | Validating _ o _ =>
           let s := set_ps s p (Some (Closed (pending_open o))) in
-          if o_closed o then ok s else ok_ev s (UFail p E_REJECTED)
+          if o_closed o then ok (arm s p) else ok_ev s (UFail p E_REJECTED)
       | _ => None
       end
   end.
 
+Fixpoint remove_first (p : peer) (l : list peer) : list peer :=
+  match l with
+  | [] => []
+  | q :: t => if q =? p then t else q :: remove_first p t
+  end.
+
+(* an expired timer: "peer didn't answer": only an attempt whose outbound half is open and whose
+   inbound substream never came is cancelled; everything else ignores the timer *)
 Definition on_timer (s : st) (p : peer) : res :=
   match ps s p with
   | Some (Validating _ OOpen IClosed) =>
@@ -374,13 +406,21 @@ Inductive op :=
 | OpenFail (p : peer) | DialFail (p : peer) | HsIn (p : peer) (okb : bool) | HsOut (p : peer) (okb : bool)
 | Validate (p : peer) (accept : bool) | Timer (p : peer) | CmdOpen (p : peer) | CmdClose (p : peer)
 | CmdForce (p : peer) | TaskDie (p : peer) (gated : bool) | Release (p : peer) | KillChan (p : peer)
-| Gate (p : peer).
+| Gate (p : peer)
+| Notify (p : peer)                      (* the remote sends a notification on the open stream *)
+| NotifyDie (p : peer) (gated : bool)    (* ... and then closes the stream *)
+| GrabSink (p : peer)                    (* the user keeps a clone of handle.notification_sink(p) *)
+| SendSync (p : peer) (m : N)            (* handle.send_sync_notification(p, m) *)
+| SendAsync (p : peer) (m : N)           (* handle.send_async_notification(p, m) *)
+| SinkSync (p : peer) (m : N)            (* the kept clone: sink.send_sync_notification(m) *)
+| SinkAsync (p : peer) (m : N).          (* sink.send_async_notification(m) *)
 
 Definition op_peer (o : op) : peer :=
   match o with
   | Established p | ConnClosed p | SubIn p | SubOut p | OpenFail p | DialFail p | HsIn p _
   | HsOut p _ | Validate p _ | Timer p | CmdOpen p | CmdClose p | CmdForce p | TaskDie p _
-  | Release p | KillChan p | Gate p => p
+  | Release p | KillChan p | Gate p | Notify p | NotifyDie p _ | GrabSink p | SendSync p _ | SendAsync p _
+  | SinkSync p _ | SinkAsync p _ => p
   end.
 
 (* oldest unanswered open_substream request of the peer *)
@@ -409,6 +449,43 @@ Fixpoint finish_tasks (p : peer) (l : list task) : list task * list uev * N :=
 Definition run_shutdowns (s : st) (p : peer) (n : N) : st :=
   if n =? 0 then s else on_shutdown s p.
 
+(* the remote closes the open stream of p (inbound substream ends): the newest Connection task of
+   the peer, if still running, closes by itself and notifies the protocol *)
+Definition task_die_op (s : st) (p : peer) (g : bool) : res :=
+      match lastt s p with
+      | Some k =>
+          match find_task k (tasks s) with
+          | Some t =>
+              match t_closing t with
+              | Some _ => ok s
+              | None =>
+                  if g || t_gated t
+                  then ok (set_tasks s (map_task k (fun t => mkTask (t_id t) (t_peer t) (Some true) true) (tasks s)))
+                  else Some (on_shutdown (set_tasks s (remove_task k (tasks s))) p, [UClosed p], [])
+              end
+          | None => ok s
+          end
+      | None => ok s
+      end.
+
+(* A notification handed to the sink of task k: accepted while the task's receivers exist (the task is
+   alive, running or closing); written to the task's outbound substream only if the task is running;
+   an error if the task is gone. Channel capacities are C12's subject and not modelled here. *)
+Definition sink_send (s : st) (p : peer) (k : N) (m : N) (async : bool) : list call :=
+  match find_task k (tasks s) with
+  | Some t =>
+      CRet p R_OK :: match t_closing t with None => [CWire (t_peer t) k m] | Some _ => [] end
+  | None => [CRet p (if async then R_NOPEER else R_NOCONN)]
+  end.
+
+(* through the handle: the `peers` map is the gate; a synchronous send to a peer that is not in the
+   map returns Ok and does nothing, an asynchronous one returns PeerDoesntExist *)
+Definition handle_send (s : st) (p : peer) (m : N) (async : bool) : list call :=
+  match hsink s p with
+  | Some k => sink_send s p k m async
+  | None => [CRet p (if async then R_NOPEER else R_OK)]
+  end.
+
 Definition main_handler (c : cfg) (s : st) (o : op) : res :=
   match o with
   | Established p =>
@@ -434,26 +511,13 @@ Definition main_handler (c : cfg) (s : st) (o : op) : res :=
   | HsIn p b => if hsI s p then (if b then on_hs_in_ok c s p else on_hs_err s p) else ok s
   | HsOut p b => if hsO s p then (if b then on_hs_out_ok s p else on_hs_err s p) else ok s
   | Validate p a => if hval s p then on_validation (set_hval s p false) p a else ok s
-  | Timer p => on_timer s p
+  | Timer p => if existsb (N.eqb p) (timers s) then on_timer (set_timers s (remove_first p (timers s))) p else ok s
   | CmdOpen p => if hopen s p then ok s else on_open c s p
   | CmdClose p => if hopen s p then on_close s p else ok s
   | CmdForce p => Some (s, [], svc_force s p)
-  | TaskDie p g =>
-      match lastt s p with
-      | Some k =>
-          match find_task k (tasks s) with
-          | Some t =>
-              match t_closing t with
-              | Some _ => ok s
-              | None =>
-                  if g || t_gated t
-                  then ok (set_tasks s (map_task k (fun t => mkTask (t_id t) (t_peer t) (Some true) true) (tasks s)))
-                  else Some (on_shutdown (set_tasks s (remove_task k (tasks s))) p, [UClosed p], [])
-              end
-          | None => ok s
-          end
-      | None => ok s
-      end
+  | TaskDie p g => task_die_op s p g
+  | Notify p => ok s
+  | NotifyDie p g => task_die_op s p g
   | Gate p =>
       match lastt s p with
       | Some k => ok (set_tasks s (map_task k (fun t => mkTask (t_id t) (t_peer t) (t_closing t) true) (tasks s)))
@@ -464,11 +528,20 @@ Definition main_handler (c : cfg) (s : st) (o : op) : res :=
       let '(l', ev, n) := finish_tasks p l in
       Some (run_shutdowns (set_tasks s l') p n, ev, [])
   | KillChan p => if conn s p then ok (set_dead s p true) else ok s
+  | GrabSink p =>
+      match usink s p, hsink s p with
+      | None, Some k => ok (set_usink s p (Some k))
+      | _, _ => ok s
+      end
+  | SendSync p m => Some (s, [], handle_send s p m false)
+  | SendAsync p m => Some (s, [], handle_send s p m true)
+  | SinkSync p m => Some (s, [], match usink s p with Some k => sink_send s p k m false | None => [] end)
+  | SinkAsync p m => Some (s, [], match usink s p with Some k => sink_send s p k m true | None => [] end)
   end.
 
 (* the user drains the event stream: the handle's gate and pending validations follow the events.
-   A ValidateSubstream that replaces an unanswered one drops the old oneshot, which the protocol
-   sees as a Reject for the peer. NotificationStreamClosed removes the peer's NotificationSink from
+   A ValidateSubstream that replaces an unanswered one drops the old oneshot (second component of
+   the result); since the fix the protocol does not read a dropped sender as a verdict. NotificationStreamClosed removes the peer's NotificationSink from
    the handle: if that sink belongs to a Connection task that is still running (the Closed came
    from an older task), the task sees its notification channels closed and shuts down. *)
 Definition running (s : st) (k : N) : bool :=
@@ -482,34 +555,22 @@ Fixpoint drain (s : st) (evs : list uev) : st * list peer * list N :=
   | [] => (s, [], [])
   | e :: t =>
       match e with
-      | UOpened p _ => drain (set_hopen s p true) t
+      | UOpened p _ => drain (set_hsink (set_hopen s p true) p (lastt s p)) t
       | UClosed p =>
           let killed :=
-            if hopen s p then
-              match lastt s p with
-              | Some k => if running s k then [k] else []
-              | None => []
-              end
-            else [] in
-          let '(s1, l, ks) := drain (set_hopen s p false) t in (s1, l, killed ++ ks)
+            match hsink s p with
+            | Some k =>
+                (* the handle drops its sink; the task notices only if no clone is left *)
+                if running s k && negb (match usink s p with Some k' => k' =? k | None => false end)
+                then [k] else []
+            | None => []
+            end in
+          let '(s1, l, ks) := drain (set_hsink (set_hopen s p false) p None) t in (s1, l, killed ++ ks)
       | UValidate p =>
           if hval s p then let '(s1, l, ks) := drain s t in (s1, p :: l, ks)
           else drain (set_hval s p true) t
       | UFail _ _ => drain s t
-      end
-  end.
-
-Fixpoint dropped_validations (s : st) (l : list peer) : res :=
-  match l with
-  | [] => ok s
-  | p :: t =>
-      match on_validation s p false with
-      | Some (s1, ev1, c1) =>
-          match dropped_validations s1 t with
-          | Some (s2, ev2, c2) => Some (s2, ev1 ++ ev2, c1 ++ c2)
-          | None => None
-          end
-      | None => None
+      | UNotif _ => drain s t
       end
   end.
 
@@ -533,18 +594,30 @@ Fixpoint kill_tasks (s : st) (ks : list N) : st * list uev :=
   | k :: t => let '(s1, e1) := task_dies s k in let '(s2, e2) := kill_tasks s1 t in (s2, e1 ++ e2)
   end.
 
+(* notifications the Connection task of the peer forwards into the handle's notification channel
+   while this event is handled: the newest task of the peer must still be running *)
+Definition notifs_of (s : st) (o : op) : list peer :=
+  match o with
+  | Notify p | NotifyDie p _ =>
+      match lastt s p with
+      | Some k => if running s k then [p] else []
+      | None => []
+      end
+  | _ => []
+  end.
+
+(* The handle polls its event channel before its notification channel: the lifecycle events that are
+   queued are seen first, then the queued notifications, which are delivered only for peers that are
+   in the handle's `peers` map at that moment. *)
 Definition step (c : cfg) (s : st) (o : op) : res :=
   match main_handler c s o with
   | None => None
   | Some (s1, ev, calls) =>
-      let '(s2, dropped, killed) := drain s1 ev in
-      match dropped_validations s2 dropped with
-      | Some (s3, ev3, calls3) =>
-          let '(s4, ev4) := kill_tasks s3 killed in
-          let '(s5, _, _) := drain s4 (ev3 ++ ev4) in
-          Some (s5, ev ++ ev3 ++ ev4, calls ++ calls3)
-      | None => None
-      end
+      let '(s2, _, killed) := drain s1 ev in
+      let nf := map UNotif (filter (hopen s2) (notifs_of s o)) in
+      let '(s4, ev4) := kill_tasks s2 killed in
+      let '(s5, _, _) := drain s4 ev4 in
+      Some (s5, ev ++ nf ++ ev4, calls)
   end.
 
 (* a run: outputs of every step; stops at the first stuck step *)
@@ -555,5 +628,121 @@ Fixpoint run (c : cfg) (s : st) (l : list op) : list (st * list uev * list call)
       match step c s o with
       | None => ([], false)
       | Some (s1, ev, calls) => let '(r, b) := run c s1 t in ((s1, ev, calls) :: r, b)
+      end
+  end.
+
+(* ==================================================================================================
+   The bounded event channel and a user who polls the handle when he likes.
+
+   Everything above lets the user drain the handle after every event. Here the events emitted by the
+   protocol loop and by the Connection tasks queue up in the event channel of capacity `cap` (>= 1); a
+   producer that finds the channel full waits, and waiting producers are served first-come-first-served
+   (tokio's mpsc semaphore is fair). `lq` is the channel content followed by the events of the waiting
+   producers, in that order; the protocol loop is parked inside a handler exactly when one of its own
+   events (everything except NotificationStreamClosed, which the Connection tasks emit) sits beyond the
+   capacity. While it is parked nothing else is handled (the harness does not schedule anything else
+   either); calls a handler makes after its blocked `.await` (force_close in the timer arm) are held
+   back until it resumes. `LPoll` is one `handle.next()`: the oldest queued event, else the oldest
+   queued notification of a peer that is still in the handle's `peers` map. Send operations are left
+   to the eager model above. *)
+Record lst := mkL {
+  ls : st;
+  lq : list uev;          (* emitted and not yet delivered, oldest first *)
+  lsk : list N;           (* the tasks whose sinks the queued NotificationStreamOpened events carry *)
+  lnf : list peer;        (* the handle's notification channel *)
+  lheld : list call       (* calls of a parked handler that come after its blocked await *)
+}.
+
+Definition linit : lst := mkL init [] [] [] [].
+
+Definition is_task_ev (e : uev) : bool := match e with UClosed _ => true | _ => false end.
+
+(* the sinks of the Opened events a handler emits: the task it just spawned *)
+Definition new_sinks (s : st) (ev : list uev) : list N :=
+  flat_map (fun e => match e with UOpened _ _ => [ntask s] | _ => [] end) ev.
+
+Definition parked (cap : nat) (l : lst) : bool :=
+  existsb (fun e => negb (is_task_ev e)) (skipn cap (lq l)).
+
+Inductive lop := LOp (o : op) | LPoll.
+
+Definition send_op (o : op) : bool :=
+  match o with GrabSink _ | SendSync _ _ | SendAsync _ _ | SinkSync _ _ | SinkAsync _ _ => true | _ => false end.
+Definition timer_op (o : op) : bool := match o with Timer _ => true | _ => false end.
+Definition lskip (cap : nat) (l : lst) (o : op) : bool :=
+  parked cap l || send_op o.
+
+(* the next notification the handle hands out: entries of peers that are not in `peers` are discarded *)
+Fixpoint next_notif (s : st) (l : list peer) : option peer * list peer :=
+  match l with
+  | [] => (None, [])
+  | p :: t => if hopen s p then (Some p, t) else next_notif s t
+  end.
+
+(* result: new state, what this `handle.next()` returned, calls made on the service *)
+Definition lstep (c : cfg) (cap : nat) (l : lst) (g : lop) : option (lst * list uev * list call) :=
+  match g with
+  | LOp o =>
+      if lskip cap l o then Some (l, [], [])
+      else
+        match main_handler c (ls l) o with
+        | None => None
+        | Some (s1, ev, calls) =>
+            let q1 := lq l ++ ev in
+            let k1 := lsk l ++ new_sinks (ls l) ev in
+            let n1 := lnf l ++ notifs_of (ls l) o in
+            if parked cap (mkL s1 q1 k1 n1 (lheld l)) && timer_op o
+            then Some (mkL s1 q1 k1 n1 calls, [], [])
+            else Some (mkL s1 q1 k1 n1 (lheld l), [], calls)
+        end
+  | LPoll =>
+      match lq l with
+      | e :: rest =>
+          let '(s1, _, killed) := drain (ls l) [e] in
+          (* the sink the handle stores is the one the event carries *)
+          let '(s1', ks) :=
+            match e, lsk l with
+            | UOpened p _, k :: kt => (set_hsink s1 p (Some k), kt)
+            | _, ks => (s1, ks)
+            end in
+          let '(s2, ev4) := kill_tasks s1' killed in
+          let l1 := mkL s2 (rest ++ ev4) ks (lnf l) (lheld l) in
+          if parked cap l1 then Some (l1, [e], [])
+          else Some (mkL s2 (rest ++ ev4) ks (lnf l) [], [e], lheld l)
+      | [] =>
+          match next_notif (ls l) (lnf l) with
+          | (Some p, t) => Some (mkL (ls l) [] (lsk l) t (lheld l), [UNotif p], [])
+          | (None, t) => Some (mkL (ls l) [] (lsk l) t (lheld l), [], [])
+          end
+      end
+  end.
+
+Fixpoint lrun (c : cfg) (cap : nat) (l : lst) (gs : list lop) : list (lst * list uev * list call) * bool :=
+  match gs with
+  | [] => ([], true)
+  | g :: t =>
+      match lstep c cap l g with
+      | None => ([], false)
+      | Some (l1, ev, calls) => let '(r, b) := lrun c cap l1 t in ((l1, ev, calls) :: r, b)
+      end
+  end.
+
+(* what one step puts into the event queue (ghost, for the no-loss statement) *)
+Definition lemitted (c : cfg) (cap : nat) (l : lst) (g : lop) : list uev :=
+  match g with
+  | LOp o =>
+      if lskip cap l o then []
+      else match main_handler c (ls l) o with Some (_, ev, _) => ev | None => [] end
+  | LPoll =>
+      match lq l with
+      | e :: _ =>
+          let '(s1, _, killed) := drain (ls l) [e] in
+          let '(s1', _) :=
+            match e, lsk l with
+            | UOpened p _, k :: kt => (set_hsink s1 p (Some k), kt)
+            | _, ks => (s1, ks)
+            end in
+          snd (kill_tasks s1' killed)
+      | [] => []
       end
   end.
